@@ -543,6 +543,37 @@ func (e *Env) evalCall(n *ast.CallExpr) Term {
 			args = append(args, e.eval(a))
 		}
 		return e.st.ex.applyPureClosure(e, n, bv, args)
+	case "ncalls":
+		if e.st.callsLost {
+			e.fail(n, "ncalls(): the call log is not exact after a loop")
+		}
+		return intLit(int64(len(e.st.calls)))
+	case "callarg", "callres":
+		if e.st.callsLost {
+			e.fail(n, "%s(): the call log is not exact after a loop", name)
+		}
+		kv, ok1 := e.info.Types[n.Args[0]]
+		iv, ok2 := e.info.Types[n.Args[1]]
+		if !ok1 || !ok2 || kv.Value == nil || iv.Value == nil {
+			e.fail(n, "%s(k, i): k and i must be constants", name)
+		}
+		k64, _ := constant.Int64Val(kv.Value)
+		i64, _ := constant.Int64Val(iv.Value)
+		k, i := int(k64), int(i64)
+		if k < 1 || k > len(e.st.calls) {
+			// no such call on this path: the value is unconstrained
+			t := e.typeOf(n)
+			return e.st.sc.fresh("nocall", e.u().sortOf(t))
+		}
+		rec := e.st.calls[k-1]
+		list := rec.Args
+		if name == "callres" {
+			list = rec.Results
+		}
+		if i < 0 || i >= len(list) {
+			e.fail(n, "%s(%d, %d): index out of range", name, k, i)
+		}
+		return list[i]
 	case "freshid":
 		return ge(e.eval(n.Args[0]), e.allocLo)
 	case "itercount":
@@ -1011,6 +1042,27 @@ func (st *State) methodSymbol(e *Env, name string, sorts []Sort, rs Sort, ifaceT
 		tid := st.u().typeID(rt)
 		known = append(known, eq(ifType(iv), intLit(int64(tid))))
 		st.emitMethodLink(e, pf, sym, rs, rt, tid)
+	}
+	// dynamic types without a definition: the declared default of a virtual function, if any
+	var dflt *PureFunc
+	for _, k := range sortedKeys(prog.Pures) {
+		if pf := prog.Pures[k]; pf.Virtual && pf.HasDefault && pf.Name == name {
+			dflt = pf
+		}
+	}
+	if dflt != nil {
+		binders := []string{fmt.Sprintf("(%s Iface)", iv.S)}
+		callArgs := []Term{iv}
+		for _, s := range sorts[1:] {
+			st.sc.nfresh++
+			a := Term{fmt.Sprintf("a!l%d", st.sc.nfresh), s}
+			binders = append(binders, fmt.Sprintf("(%s %s)", a.S, s))
+			callArgs = append(callArgs, a)
+		}
+		body := st.expandMethodDef(e, dflt, callArgs)
+		lhs := app(rs, sym, callArgs...)
+		st.sc.emit("(assert (forall (%s) (! (=> (not %s) (= %s %s)) :pattern (%s))))", strings.Join(binders, " "), or(known...).S, lhs.S, body.S, lhs.S)
+		return sym
 	}
 	// foreign implementations
 	xname := "X." + name + "." + shortTypeName(ifaceT) + "." + string(rs)
